@@ -20,6 +20,15 @@ for line in open(os.path.join(V, 'properties.jsonl')):
 ids = ids or sorted(props)
 
 FOCUS = {
+    '8': ('the checker that will judge your change is thorough: besides everything in the list of used ideas below it compares files '
+          'with serialised text, reads what it writes through every extension, varies units / flags / dtypes / memory layouts / '
+          'frames / header encodings / axis orders, uses results before judging them, edits parsed objects and parses again, and looks '
+          'at NaN, zero, equal, tiny, huge and boundary values.  Look for what can STILL slip through: a method or property of the '
+          'anchored classes that appears in none of the used ideas, an interaction of THREE things (e.g. a flag, a unit and a '
+          'history), behaviour that differs between the first and a later element of a list or between a list of one and a list of '
+          'several, a documented default that is silently changed, a warning that is no longer issued or an exception of another '
+          'class, a result that is right in value but wrong in type / shape / dtype / frame / unit, and the less used of two '
+          'equivalent public spellings (method vs operator, keyword vs positional, class method vs instance method)'),
     '7': ('the checker that will judge your change already varies units, include flags (False and 0), zero / equal / tiny / huge / '
           'negative values, narrow integer types, memory layouts, construction by re-assignment, WCS header encodings and axis orders, '
           'region frames, caller-held arguments, call histories and text with unusual characters.  So think about what is LEFT: '
